@@ -162,16 +162,6 @@ func runLSHScenario(o *Opts, res *Result, sc *lshScenario, tag string, full bool
 			res.Hit("op:" + op.K)
 		}
 		ids := liveIDs()
-		if before != nil {
-			if sig, detail := replayIndexOp(drv, hp, c, op, before, oldVec, wasLive); sig != "" {
-				return sig, fmt.Sprintf("after op %d (%s %d): %s", i, op.K, op.ID, detail)
-			}
-		}
-		if drv != nil && (full || i%5 == 0) {
-			if sig, detail := searchTie(drv, hp, c, sc, ids, srng); sig != "" {
-				return sig, fmt.Sprintf("after op %d: %s", i, detail)
-			}
-		}
 		if err := treeInv(c, ids); err != nil {
 			kind := "index-invariant"
 			switch {
@@ -188,11 +178,8 @@ func runLSHScenario(o *Opts, res *Result, sc *lshScenario, tag string, full bool
 			}
 			return "C05/" + kind, fmt.Sprintf("after op %d (%s %d): %v", i, op.K, op.ID, err)
 		}
-		if !full && i%7 != 0 && i != len(sc.Ops)-1 {
-			continue
-		}
 		// observable consequence: covering-radius default search returns every live document once
-		if len(ids) > 0 {
+		if len(ids) > 0 && (full || i%7 == 0 || i == len(sc.Ops)-1) {
 			q := make([]float64, sc.Dim)
 			d0, _ := c.GetDocument(ids[0])
 			copy(q, d0.Vector)
@@ -228,6 +215,16 @@ func runLSHScenario(o *Opts, res *Result, sc *lshScenario, tag string, full bool
 				if len(r.Results) != len(ids) {
 					return "C05/covering-radius-extra", fmt.Sprintf("after op %d: covering-radius search returned %d results for %d live documents", i, len(r.Results), len(ids))
 				}
+			}
+		}
+		if before != nil {
+			if sig, detail := replayIndexOp(drv, hp, c, op, before, oldVec, wasLive); sig != "" {
+				return sig, fmt.Sprintf("after op %d (%s %d): %s", i, op.K, op.ID, detail)
+			}
+		}
+		if drv != nil && (full || i%5 == 0) {
+			if sig, detail := searchTie(drv, hp, c, sc, ids, srng); sig != "" {
+				return sig, fmt.Sprintf("after op %d: %s", i, detail)
 			}
 		}
 	}
